@@ -41,3 +41,35 @@ Proof.
   split; [exact Et|]. rewrite !c02_go_last_root, !last_last, !c02_go_tree.
   fold (run (cops_strip ops1)). fold (run (cops_strip ops2)). now rewrite Et.
 Qed.
+
+(* ---------- histories with FAILED operations (extension of C02's quantifier:
+   faults).  An operation that returns an error must leave the tree unchanged;
+   in the functional model this is true by construction ([FFailed] is the
+   identity) — the content of this extension is on the implementation side,
+   where the harness injects node database read errors, retries the operation
+   and compares with the fault-free twin.  Stated here so that the model of a
+   faulted history is explicit. ---------- *)
+Inductive fop := FOk (o : op) | FFailed (o : op).
+Definition apply_fop (t : tree) (f : fop) : tree :=
+  match f with FOk o => apply_op t o | FFailed _ => t end.
+Definition run_f (fs : list fop) : tree := fold_left apply_fop fs Nil.
+Definition succeeded (fs : list fop) : list op :=
+  flat_map (fun f => match f with FOk o => [o] | FFailed _ => [] end) fs.
+
+Lemma failed_op_leaves_tree t o : apply_fop t (FFailed o) = t.
+Proof. reflexivity. Qed.
+
+Lemma run_f_succeeded fs : forall t, fold_left apply_fop fs t = fold_left apply_op (succeeded fs) t.
+Proof.
+  induction fs as [|[o|o] r IH]; intros t; cbn [fold_left succeeded flat_map app]; auto;
+    try apply IH.
+Qed.
+
+Theorem root_depends_only_on_contents_with_faults fs1 fs2 :
+  Forall op_valid (succeeded fs1) -> Forall op_valid (succeeded fs2) ->
+  contents (run_f fs1) = contents (run_f fs2) ->
+  run_f fs1 = run_f fs2 /\ forall H, root_hash H (run_f fs1) = root_hash H (run_f fs2).
+Proof.
+  unfold run_f. rewrite !run_f_succeeded. intros V1 V2 E.
+  destruct (root_depends_only_on_contents _ _ V1 V2 E) as (Et & _ & Eh). auto.
+Qed.
